@@ -10,11 +10,13 @@ import (
 	"runtime"
 	"sort"
 	"strings"
+	"sync"
 	"testing"
 	"time"
 
 	"github.com/ipfs/go-datastore"
 	dssync "github.com/ipfs/go-datastore/sync"
+	"github.com/libp2p/go-libp2p/core/host"
 	"github.com/libp2p/go-libp2p/core/network"
 	"github.com/libp2p/go-libp2p/core/peer"
 	"github.com/libp2p/go-libp2p/p2p/discovery/backoff"
@@ -182,18 +184,27 @@ func (r *run) joinCallers() {
 }
 
 // newManager builds a shrex peer manager like the archival one of nodebuilder (no shrex-sub pools). It is not
-// started: UpdateNodePool works on the node pool alone.
+// started: UpdateNodePool works on the node pool alone. Host and gater are shared by all runs (a mocknet host per
+// behaviour would leave its goroutines behind).
+var (
+	mgrOnce  sync.Once
+	mgrHost  host.Host
+	mgrGater *conngater.BasicConnectionGater
+	mgrErr   error
+)
+
 func newManager() (*peers.Manager, error) {
-	hst, err := mocknet.New().GenPeer()
-	if err != nil {
-		return nil, err
-	}
-	gater, err := conngater.NewBasicConnectionGater(dssync.MutexWrap(datastore.NewMapDatastore()))
-	if err != nil {
-		return nil, err
+	mgrOnce.Do(func() {
+		mgrHost, mgrErr = mocknet.New().GenPeer()
+		if mgrErr == nil {
+			mgrGater, mgrErr = conngater.NewBasicConnectionGater(dssync.MutexWrap(datastore.NewMapDatastore()))
+		}
+	})
+	if mgrErr != nil {
+		return nil, mgrErr
 	}
 	return peers.NewManager(peers.Parameters{PoolValidationTimeout: time.Minute, PeerCooldown: time.Second, GcInterval: time.Hour,
-		EnableBlackListing: false}, hst, gater, "verif")
+		EnableBlackListing: false}, mgrHost, mgrGater, "verif")
 }
 
 func names(e *env, ids []peer.ID) []string {
@@ -210,7 +221,14 @@ var reGoroutine = regexp.MustCompile(`(?m)^goroutine \d+ \[([^\]]*)\]:`)
 // parkedInPeers counts the goroutines blocked in the select of limitedSet.Peers.
 func parkedInPeers() int {
 	buf := make([]byte, 1<<20)
-	buf = buf[:runtime.Stack(buf, true)]
+	for {
+		k := runtime.Stack(buf, true)
+		if k < len(buf) {
+			buf = buf[:k]
+			break
+		}
+		buf = make([]byte, 2*len(buf)) // the dump was cut off
+	}
 	n := 0
 	for _, g := range strings.Split(string(buf), "\n\n") {
 		m := reGoroutine.FindStringSubmatch(g)
@@ -874,6 +892,7 @@ func TestDriver(t *testing.T) {
 			rep.Sample(map[string]any{"behaviour": b.ID, "mode": b.Mode, "steps": len(b.Steps), "last_action": b.Steps[len(b.Steps)-1].A})
 		}
 	}
+	rep.Set("goroutines_at_end", runtime.NumGoroutine())
 	rep.Set("drifts", drifts)
 	rep.Set("reproduced", repro)
 	rep.Set("witness", witness)
